@@ -121,6 +121,14 @@ func runHarness(p *Program, hs HarnessSpec, timeoutMs int) *harnessResult {
 	if v, ok := hs.Cfg["maxpaths"]; ok {
 		fmt.Sscan(v, &e.MaxPaths)
 	}
+	budget := 1200
+	if timeoutMs > 60000 {
+		budget = 4 * 3600
+	}
+	if v, ok := hs.Cfg["maxseconds"]; ok {
+		fmt.Sscan(v, &budget)
+	}
+	e.Deadline = time.Now().Add(time.Duration(budget) * time.Second)
 	func() {
 		defer func() {
 			if r := recover(); r != nil {
@@ -144,6 +152,7 @@ func cmdRun(args []string) int {
 	fs := flag.NewFlagSet("run", flag.ExitOnError)
 	timeout := fs.Int("timeout", 60000, "per-query timeout ms")
 	params := fs.String("params", "", "k=v,k=v")
+	cfgs := fs.String("cfg", "", "k=v,k=v")
 	fs.Parse(args)
 	if fs.NArg() < 2 {
 		fmt.Println("usage: ssasym run [--params k=v] <pkgdir> <fn>")
@@ -160,6 +169,12 @@ func cmdRun(args []string) int {
 			var n int
 			fmt.Sscan(kv[i+1:], &n)
 			hs.Params[kv[:i]] = n
+		}
+	}
+	hs.Cfg = map[string]string{}
+	for _, kv := range strings.Split(*cfgs, ",") {
+		if i := strings.IndexByte(kv, '='); i > 0 {
+			hs.Cfg[kv[:i]] = kv[i+1:]
 		}
 	}
 	r := runHarness(p, hs, *timeout)
@@ -298,7 +313,7 @@ func report(prop, tier string, seed int, ps PropSpec, results []*harnessResult, 
 		}
 		inconclusive = append(inconclusive, dedupe(e.Inconclusive)...)
 		if e.Truncated {
-			inconclusive = append(inconclusive, fmt.Sprintf("%s: exploration truncated at %d paths", r.Spec.Fn, e.MaxPaths))
+			inconclusive = append(inconclusive, fmt.Sprintf("%s: exploration truncated (path or time budget) after %d paths", r.Spec.Fn, e.Paths))
 		}
 		if e.sol.Errors > 0 {
 			inconclusive = append(inconclusive, fmt.Sprintf("%s: %d solver error lines", r.Spec.Fn, e.sol.Errors))
